@@ -74,6 +74,8 @@ def compile_xml(src, variant, hh):
         if r.returncode != 0:
             raise RuntimeError("compile failed: %s\n%s" % (src, r.stderr[-4000:]))
         os.replace(tmp, obj)
+    else:
+        build._touch(obj)
     return obj, key
 
 
@@ -102,6 +104,8 @@ def build_lib(variant="scalar"):
             if r.returncode != 0:
                 raise RuntimeError("link failed:\n" + r.stderr[-4000:])
             os.replace(tmp, lib)
+        else:
+            build._touch(lib)
         build.prune()
         return lib
 
